@@ -5,6 +5,6 @@ namespace HugrVerif.Gen.QsysPattern
 
 def pattern : String := "^([a-z][\\w_]*)\\[(\\d+)\\]$"
 def flags : String := ""
-def usedAs : String := ""
+def usedAs : String := "match(P,_)"
 
 end HugrVerif.Gen.QsysPattern
